@@ -492,9 +492,35 @@ def r13e(ctx: Context) -> None:
     rule.ok(f"{props.name}: fields", "written only by the constructor (pragma_lines is re-created per document, R13c)")
 
 
+def r13f(ctx: Context) -> None:
+    """The scan helper lives for the whole run and serves every file.  Anything it remembered on
+    itself while one file was processed (a cursor, a cache, a level) would be the starting state of
+    the next file - and a reset 'after the file' is skipped exactly when the file failed.  Its fields
+    are written by the constructor and the per-run entry only."""
+    from sa.rules.c15 import per_file_functions
+
+    prog = ctx.prog
+    rule = ctx.rule("R13f", "the scan helper keeps no per-file state on itself", 3)
+    helper = prog.cls(FSH)
+    roots = [f for f in per_file_functions(prog) if f.cls == helper]
+    if len(roots) < 2:
+        raise AnalysisError("per-file functions of the scan helper not found")
+    closure = method_closure(prog, helper, [f.name for f in roots], stop_at=None)
+    object_fields = {name for name, typ in helper.fields.items() if _helper_class(prog, typ) is not None}
+    for func in sorted(closure, key=lambda f: f.qualname):
+        writes = self_effects(func, object_fields).writes
+        key = f"{func.short}"
+        if writes:
+            name, nodes = sorted(writes.items())[0]
+            rule.fail(f"{func.short}: {name}", where(func, nodes[0]), f"{func.short} runs once per file and writes the helper's own field '{name}' ('{norm(nodes[0])[:70]}'): what one file leaves there is what the next file starts with (a reset after the file does not run when the file fails)")
+        else:
+            rule.ok(key, "writes no field of the helper")
+
+
 def run(ctx: Context) -> None:
     r13a(ctx)
     r13b(ctx)
     r13c(ctx)
     r13d(ctx)
     r13e(ctx)
+    r13f(ctx)
